@@ -129,3 +129,43 @@ __CPROVER_frees(self->first)''',
       '__CPROVER_requires(FRONT_SHAPE(self) && !g_empty)\n__CPROVER_ensures(__CPROVER_return_value == &VIEW(&self->first->ring, 0))\n__CPROVER_assigns()',
       'front() = first element of the first block', inl=['precondition', 'empty'], extra=[rx(r'return first->front\(\);', 'return Ring_front%s(&first->ring);' % SFX, 1, 1)])
     return UNITS
+
+
+def make_links(ring_prelude_unused=None):
+    """emplace(Block* b, iterator ii, args) -- the SPLIT of a full block in the middle: the list links around the block, the new
+    block and the old successor (elements abstracted to counts; the ring operations are proved elsewhere)."""
+    P = ['''
+#include <stdlib.h>
+#define ChunkSize 4u
+struct LBlock { unsigned count; struct LBlock* next; struct LBlock* prev; };      /* a block = its element count + links */
+struct LDeque { struct LBlock* first; struct LBlock* last; unsigned num; };
+bool g_hassucc;       /* ghost: the block that is split has a successor */
+unsigned g_off;       /* ghost: offset of the insertion position inside the block */
+/* alloc_block(move_iterator(ii), move_iterator(b->end())): a fresh unlinked block holding the d moved elements */
+static inline struct LBlock* ld_alloc_block_range(unsigned d) { struct LBlock* n = (struct LBlock*)malloc(sizeof(struct LBlock)); __CPROVER_assume(n != 0); n->count = d; n->next = 0; n->prev = 0; return n; }
+static inline void lb_pop_back(struct LBlock* b) { __CPROVER_assert(b->count >= 1, "pop_back on a non-empty block"); b->count--; }
+static inline void lb_emplace_at_end(struct LBlock* b, unsigned off) { __CPROVER_assert(off == b->count && b->count < ChunkSize, "Block::emplace at the end of a block with room"); b->count++; }
+''']
+    UNITS.append(Unit(
+        name='GD_emplace_split_links', src=GDQ, within=W, anchor=r'emplace\(Block\* b, typename Block::iterator ii, Args&&\.\.\. args\)', proto='struct LBlock* GD_emplace_split_links(struct LDeque* self, struct LBlock* b, unsigned ii)',
+        contract="""__CPROVER_requires(__CPROVER_is_fresh(self, sizeof(*self)) && __CPROVER_is_fresh(b, sizeof(*b)) && b->count == ChunkSize && ii < ChunkSize && self->num < 0x7fffffff && self->first != 0 && self->last != 0)
+/* a FULL block that is not the front position of the deque: either not the first block, or a position behind its first element */
+__CPROVER_requires((self->first != b || ii > 0) && (g_hassucc ? (__CPROVER_is_fresh(b->next, sizeof(struct LBlock)) && b->next->prev == b && self->last != b) : (b->next == 0 && self->last == b)))
+/* the block is split: a fresh block n with the elements from the position on follows b; ALL FOUR links around n are set; the element goes to the end of b */
+__CPROVER_ensures(__CPROVER_return_value == b && b->next != 0 && b->next != __CPROVER_old(b->next) && b->next->prev == b && b->next->next == __CPROVER_old(b->next))
+__CPROVER_ensures(g_hassucc ? (__CPROVER_old(b->next)->prev == b->next && self->last == __CPROVER_old(self->last)) : self->last == b->next)
+__CPROVER_ensures(b->count == ii + 1 && b->next->count == ChunkSize - ii && self->num == __CPROVER_old(self->num) + 1 && self->first == __CPROVER_old(self->first))
+__CPROVER_assigns(self->num, self->last, __CPROVER_object_whole(b); g_hassucc: b->next->prev)""",
+        prelude=P,
+        lower=[rx(r'std::forward<Args>\(args\)\.\.\.', 'v', 0), rx(r'if \(!b\) \{.*?\n    \} else if \(b == first && ii == b->begin\(\)\) \{.*?\n    \} else if \(b->full\(\)\) \{', 'if (b->count == ChunkSize) {', 1, 1, flags=re.S),   # S-slice: the two end cases are the units GD_emplace_back / GD_emplace_front
+               rx(r'auto d\s*=\s*std::distance\(ii, b->end\(\)\);', 'unsigned d = b->count - ii;', 1, 1),
+               rx(r'Block\* n = alloc_block\(std::make_move_iterator\(ii\),\s*std::make_move_iterator\(b->end\(\)\)\);', 'struct LBlock* n = ld_alloc_block_range(d);', 1, 1, flags=re.S),
+               rx(r'b->pop_back\(\);', 'lb_pop_back(b);', 1, 1), rx(r'ii\s*=\s*b->end\(\);', 'ii = b->count;', 1, 1),
+               rx(r'unsigned boff = std::distance\(b->begin\(\), ii\);', 'unsigned boff = ii;', 1, 1), rx(r'b->emplace\(ii, v\);', 'lb_emplace_at_end(b, ii);', 1, 1),
+               rx(r'return std::make_pair\(b, b->begin\(\) \+ boff\);', 'return b;', 1, 1), members(['first', 'last', 'num'], minimum=2)],
+        loops={1: '__CPROVER_assigns(d, b->count)\n__CPROVER_loop_invariant(d <= ChunkSize && b->count == ii + d)\n__CPROVER_decreases(d)'},
+        fallback_unwind=6, no_flags=['--conversion-check'], inst='ChunkSize = 4; elements abstracted to counts',
+        replay=dict(prog='gdeque_split_backward', args=[], lib=True),
+        says='emplace(pos) in the middle of a FULL block: the block is split, the new block is linked in BOTH directions to both neighbours (so backward traversal sees it), last is updated if the split block was the last one, counts add up',
+        trusted=['S-slice: only the split branch and the common tail of emplace(Block*, iterator, ...) are verified here', 'elements abstracted to counts; Block::emplace(pos) is only ever asked to insert at the end of a block with room in this branch']))
+    return UNITS
